@@ -53,6 +53,7 @@ impl Monitor for C15 {
             "history_with_65535_genes",
             "records_sharing_a_name",
             "term_id_0_present",
+            "term_id_9999999_present",
         ]
         .iter()
         .map(|s| (*s).to_string())
@@ -117,6 +118,13 @@ impl Monitor for C15 {
         if rng.chance(1, 3) {
             present.push(0);
             out.bucket("term_id_0_present");
+        }
+        // ... and so is the largest id of the id space. Placed among the first terms so that it takes part
+        // in links and annotations (as a parent as well as a child)
+        if !deep_chain && rng.chance(1, 4) {
+            let pos = rng.usize_below(present.len().min(10) + 1);
+            present.insert(pos, 9_999_999);
+            out.bucket("term_id_9999999_present");
         }
         let absent_near = |rng: &mut Rng, present: &[u32]| -> u32 {
             loop {
